@@ -88,7 +88,7 @@ def cases(seed, tier):
     per = 10 if quick else 25
     hs = [gen_history(rng) for _ in range(nh)]
     for i in range(0, nh, per):
-        scns.append({"mode": "histories", "seed": rng.randint(1, 10**6), "yield_us": rng.choice([0, 10, 50]), "histories": hs[i:i + per], "kind": "lin"})
+        scns.append({"mode": "histories", "seed": rng.randint(1, 10**6), "yield_us": rng.choice([0, 10, 50]), "mutex_yield_ppm": rng.choice([0, 20000, 200000]), "histories": hs[i:i + per], "kind": "lin"})
     for _ in range(2 if quick else 10):
         scns.append({"mode": "histories", "seed": rng.randint(1, 10**6), "histories": [gen_conservation(rng)], "kind": "conservation"})
     allb = list(range(256))
